@@ -8,6 +8,7 @@ import (
 	"testing"
 	"time"
 
+	"github.com/vektah/gqlparser/v2"
 	"github.com/vektah/gqlparser/v2/ast"
 	"pgregory.net/rapid"
 
@@ -120,17 +121,22 @@ func checkC08(c *BatchOpsCase) *ev.Failure {
 	}
 	// executions: what the services were asked to execute for the batch is what they are asked for the operations alone
 	// (a mutation repeated in a batch is executed as often as it is written)
-	mutationsSeen := func() []string {
+	var rootVarsBatch, rootVarsAlone []string
+	mutationsSeen := func(rootVars *[]string) []string {
 		var r []string
 		for _, q := range net.Snapshot() {
 			if q.OpKeyword == "mutation" {
 				r = append(r, q.Service+" | "+q.Query+" | "+canonical(q.Variables))
 			}
+			// the client's variables reach the services as written, in a batch as alone (root sub-requests carry only them)
+			if !strings.Contains(q.Query, "node(id: $id)") {
+				*rootVars = append(*rootVars, q.Service+" | "+q.Query+" | "+q.VariablesText)
+			}
 		}
 		net.Reset()
 		return r
 	}
-	inBatch := mutationsSeen()
+	inBatch := mutationsSeen(&rootVarsBatch)
 	var alone []string
 	for i, op := range c.Ops {
 		got, derr := gwx.Decode(raw[i])
@@ -141,7 +147,7 @@ func checkC08(c *BatchOpsCase) *ev.Failure {
 		if single.TimedOut || single.Panic != "" {
 			return ev.Failf("harness", "single run of op %d did not complete: %s", i, trunc(single.Panic, 300))
 		}
-		alone = append(alone, mutationsSeen()...)
+		alone = append(alone, mutationsSeen(&rootVarsAlone)...)
 		want, werr := gwx.Decode(single.Body)
 		if werr != nil {
 			return ev.Failf("harness", "single run of op %d: %v", i, werr)
@@ -159,6 +165,20 @@ func checkC08(c *BatchOpsCase) *ev.Failure {
 	sort.Strings(alone)
 	if strings.Join(inBatch, "\n") != strings.Join(alone, "\n") {
 		return ev.Failf("executions:mutations", "the services executed %d mutation sub-requests for the batch and %d for the same operations alone\nbatch %v\nalone %v", len(inBatch), len(alone), inBatch, alone)
+	}
+	sort.Strings(rootVarsBatch)
+	sort.Strings(rootVarsAlone)
+	if len(c.Rules) == 0 && strings.Join(rootVarsBatch, "\n") != strings.Join(rootVarsAlone, "\n") {
+		for i := range rootVarsBatch {
+			if i >= len(rootVarsAlone) || rootVarsBatch[i] != rootVarsAlone[i] {
+				other := ""
+				if i < len(rootVarsAlone) {
+					other = rootVarsAlone[i]
+				}
+				return ev.Failf("element-differs:variables", "the root sub-requests of the batch differ from those of the operations alone\nbatch %s\nalone %s", trunc(rootVarsBatch[i], 400), trunc(other, 400))
+			}
+		}
+		return ev.Failf("element-differs:variables", "the batch causes %d root sub-requests, the operations alone %d", len(rootVarsBatch), len(rootVarsAlone))
 	}
 	return nil
 }
@@ -220,6 +240,21 @@ func TestC08(t *testing.T) {
 					return
 				}
 				req = gwx.GQLRequest{Query: op.Query, Variables: op.Variables, OperationName: op.OperationName}
+				// 64-bit identifiers travel as JSON numbers that float64 cannot hold
+				if doc, errs := gqlparser.LoadQuery(union, op.Query); errs == nil && len(op.Variables) > 0 && rapid.IntRange(0, 3).Draw(t, "bigid") == 0 {
+					vars := map[string]interface{}{}
+					for k, v := range op.Variables {
+						vars[k] = v
+					}
+					for _, o := range doc.Operations {
+						for _, vd := range o.VariableDefinitions {
+							if _, isStr := vars[vd.Variable].(string); isStr && vd.Type.Elem == nil && vd.Type.NamedType == "ID" {
+								vars[vd.Variable] = json.Number(rapid.SampledFrom([]string{"1541815603606036481", "9007199254740993", "-9223372036854775807"}).Draw(t, "bigidv"))
+							}
+						}
+					}
+					req.Variables = vars
+				}
 				switch kind {
 				case "invalid":
 					ek := editKinds[rapid.IntRange(0, len(editKinds)-1).Draw(t, "edit")]
@@ -229,8 +264,10 @@ func TestC08(t *testing.T) {
 				case "failing", "slow":
 					f0, out := checkC01(ec)
 					if out == nil || out.Skip != "" || f0 != nil {
-						rec.Class("skip:clean-run-not-clean", 1)
-						return
+						// no fault or delay can be derived from this run; the operation stays in the batch as it is
+						rec.Class("clean-run-not-clean", 1)
+						kind = "valid"
+						break
 					}
 					calls := recordCalls(out.Log)
 					if len(calls) == 0 {
